@@ -110,12 +110,65 @@ def run(ctx):
     from rules import _lints
     fis = list(ctx.repo.module(GM).functions.values()) + list(ctx.repo.module("pandapower.toolbox.data_modification").functions.values())
     _lints.et_exact(ctx, "ET-EXACT", fis, minimum=10)
+    rule_transform_guards(ctx)
+
+
+def rule_transform_guards(ctx):
+    import ast
+    R = "TRANSFORM-GUARD"
+    ctx.rule(R, "replace_impedance_by_line treats an impedance as not representable by a line when r OR x is asymmetric (negated "
+                "conjunction of the two isclose tests); select_subnet hands the system frequency f_hz of the source net to the new net "
+                "(line susceptances are 2*pi*f*c); _merge_nets offsets the characteristic ids of the second net by max(id) + 1 of the first")
+    fi = ctx.repo.func(f"{GM}:replace_impedance_by_line")
+    tests = [n for n in ast.walk(fi.node) if isinstance(n, ast.If) and "isclose" in ast.unparse(n.test) and "rft_pu" in ast.unparse(n.test)]
+    if not tests:
+        ctx.fail("replace_impedance_by_line: symmetry test not found")
+    t = tests[0].test
+
+    def is_close(e, a, b):
+        return isinstance(e, ast.Call) and ast.unparse(e.func).endswith("isclose") and len(e.args) >= 2 and \
+            {ast.unparse(e.args[0]).split(".")[-1], ast.unparse(e.args[1]).split(".")[-1]} == {a, b}
+
+    def neg(e):
+        return e.operand if isinstance(e, ast.UnaryOp) and isinstance(e.op, ast.Not) else None
+    ok = False
+    if isinstance(t, ast.BoolOp) and isinstance(t.op, ast.Or) and len(t.values) == 2 and all(neg(v) is not None for v in t.values):
+        a, b = neg(t.values[0]), neg(t.values[1])
+        ok = (is_close(a, "rft_pu", "rtf_pu") and is_close(b, "xft_pu", "xtf_pu")) or (is_close(b, "rft_pu", "rtf_pu") and is_close(a, "xft_pu", "xtf_pu"))
+    elif neg(t) is not None and isinstance(neg(t), ast.BoolOp) and isinstance(neg(t).op, ast.And) and len(neg(t).values) == 2:
+        a, b = neg(t).values
+        ok = (is_close(a, "rft_pu", "rtf_pu") and is_close(b, "xft_pu", "xtf_pu")) or (is_close(b, "rft_pu", "rtf_pu") and is_close(a, "xft_pu", "xtf_pu"))
+    ctx.ob(R, f"{GM}::replace_impedance_by_line::asymmetry-test", ok,
+           f"invalid when `{ast.unparse(t)[:100]}`" if ok else
+           f"`{ast.unparse(t)[:110]}` is not 'r asymmetric or x asymmetric': an impedance asymmetric in one of the two is replaced by a symmetric line",
+           fi.loc(tests[0]))
+    fs = ctx.repo.func(f"{GM}:select_subnet")
+    txt = ast.unparse(fs.node).replace('"', "'")
+    copied = False
+    for n in ast.walk(fs.node):
+        if isinstance(n, ast.Assign) and isinstance(n.value, (ast.List, ast.Tuple)) and any(isinstance(e, ast.Constant) and e.value == "f_hz" for e in n.value.elts):
+            copied = True
+        if isinstance(n, ast.Assign) and "'f_hz'" in ast.unparse(n.targets[0]).replace('"', "'") and "f_hz" in ast.unparse(n.value):
+            copied = True
+        if isinstance(n, ast.Call) and ast.unparse(n.func).endswith("create_empty_network") and any(k.arg == "f_hz" for k in n.keywords):
+            copied = True
+    ctx.ob(R, f"{GM}::select_subnet::f_hz", copied, "the sub-network takes f_hz from the source network" if copied else
+           "select_subnet (keep_everything_else=False) does not pass f_hz on: the sub-network of a 60 Hz grid is calculated with 50 Hz", fs.loc())
+    fm = ctx.repo.func(f"{GM}:_merge_nets")
+    st = next((x for x in ast.walk(fm.node) if isinstance(x, ast.Assign) and ast.unparse(x.targets[0]) == "id_start"), None)
+    v = ast.unparse(st.value).replace(" ", "") if st is not None else ""
+    ctx.ob(R, f"{GM}::_merge_nets::characteristic-id-offset", st is not None and v.endswith(".id_characteristic.max()+1") and v.startswith("net1["),
+           f"id_start = {v}", fm.loc(st) if st is not None else fm.loc())
 
 
 def variants(repo):
     V = Variant
     gm = "pandapower/toolbox/grid_modification.py"
     return [
+        Variant("impedance asymmetric in x only accepted", "pandapower/toolbox/grid_modification.py", replace_once("if not np.isclose(imp.rft_pu, imp.rtf_pu) or not np.isclose(imp.xft_pu, imp.xtf_pu):", "if not (np.isclose(imp.rft_pu, imp.rtf_pu) or np.isclose(imp.xft_pu, imp.xtf_pu)):"), "asymmetry-test"),
+        Variant("sub-network loses the frequency", "pandapower/toolbox/grid_modification.py", replace_once('net_parameters = ["name", "f_hz"]', 'net_parameters = ["name"]'), "select_subnet::f_hz"),
+        Variant("characteristic id offset by the number of ids", "pandapower/toolbox/grid_modification.py", replace_once("id_start = net1[elm_type].id_characteristic.max() + 1", "id_start = net1[elm_type].id_characteristic.nunique()"), "characteristic-id-offset"),
+        Variant("twin: de morgan form", "pandapower/toolbox/grid_modification.py", replace_once("if not np.isclose(imp.rft_pu, imp.rtf_pu) or not np.isclose(imp.xft_pu, imp.xtf_pu):", "if not (np.isclose(imp.rft_pu, imp.rtf_pu) and np.isclose(imp.xft_pu, imp.xtf_pu)):"), None),
         V("xward impedance without base power", gm, in_function("replace_xward_by_internal_elements", lambda s: s.replace(" * net.sn_mva,", ",", 2)), "xward-internal:store:net.impedance.rft_pu"),
         V("xward r and x swapped", gm, in_function("replace_xward_by_internal_elements", lambda s: s.replace("xward.r_ohm / (vn ** 2)", "xward.X_TMP / (vn ** 2)", 1).replace("xward.x_ohm / (vn ** 2)", "xward.r_ohm / (vn ** 2)", 1).replace("xward.X_TMP", "xward.x_ohm", 1)), "xward-internal:store:net.impedance.rft_pu"),
         V("xward shunt takes the constant power part", gm, in_function("replace_xward_by_internal_elements", replace_once("q_mvar=xward.qz_mvar, p_mw=xward.pz_mw", "q_mvar=xward.qz_mvar, p_mw=xward.ps_mw")), "xward-internal:store:net.shunt.p_mw"),
